@@ -75,3 +75,11 @@ def r2(ctx):
         ctx.check(not bad, fi, f"no caller-owned object becomes reachable from a memo / module-level object along {short(q)}",
                   role=f"retain:{short(q)}", expected="memo results and module state hold package-allocated values only",
                   found="; ".join(f"{o}.{f} -> {e[:2]}" for o, f, e in bad)[:200])
+
+
+@rule("C19", "R3", "DECOR", "read-only arrays are accepted: no kernel is compiled for explicit (writable-array) signatures", evidence=True)
+def r3(ctx):
+    """Numba types a non-writeable ndarray as `readonly array`, which matches no explicit `float64[:, :]` signature: with a
+    signature list the JIT-compiled labelling step rejects the read-only input the interpreter accepts."""
+    from . import c15
+    ctx.sub(c15.r1, only=("decorator:signature", "decorator:call-form"))
